@@ -118,9 +118,10 @@ CHECKS = {
     },
     "C08": {
         "pkg": "checks/c08", "level": "exploration", "engine": "E4 bounded-exhaustive + E1",
+        "modfile": "go.ps.mod", "tags": ["psonly"],
         "technique": "exhaustive enumeration of (n,t) x message length x message-vector alphabet x all signer subsets through the public PS API on real DKG outputs; DKG also through the full stack under all <=1-deviation schedules",
         "level_text": "blind / sign / unblind / prove / verify completes for every enumerated case; public material identical on all parties",
-        "level_note": "message entries from a fixed alphabet (empty, 1 byte, 0x00, 32 bytes, 1 kB); party ids 1..n (the PS prover uses the party id as evaluation point); mathlib version as selected for the harness module",
+        "level_note": "message entries from a fixed alphabet (empty, 1 byte, 0x00, 32 bytes, 1 kB); party ids 1..n (the PS prover uses the party id as evaluation point); built with engine/go.ps.mod so that mpc/ps is compiled against the mathlib version of its own go.mod (v0.0.2)",
         "budget_s": {"quick": 170, "thorough": 900},
     },
     "C09": {
@@ -139,6 +140,7 @@ CHECKS = {
     },
     "C16": {
         "pkg": "checks/c16", "level": "exploration", "engine": "E4 bounded-exhaustive",
+        "overlay": "net", "overlay_fallback": True,
         "technique": "exhaustive enumeration of handshake alterations / substitutions / replays / truncations against the real net.ServiceConnections over in-memory TLS 1.3 in a synctest bubble, each interleaved with an honest connection",
         "level_text": "a message is attributed only to the identity whose key signed this connection's binding, under the domain it is registered for; every other handshake of the catalogue yields no attributed message and no panic; the concurrent honest connection is unaffected",
         "level_note": "crypto/tls and crypto/x509 are trusted; byte flips cover every position of binding and signature and 16 positions of the identity; kernel TCP is replaced by an in-memory stream",
